@@ -25,6 +25,19 @@ type RouteInfo struct {
 // Params for current route
 type Params map[string]string
 
+// clone the params to a new map
+func (p Params) clone() Params {
+	if p == nil {
+		return nil
+	}
+
+	np := make(Params, len(p))
+	for k, v := range p {
+		np[k] = v
+	}
+	return np
+}
+
 // Has param key in the Params
 func (p Params) Has(key string) bool {
 	_, ok := p[key]
@@ -335,7 +348,7 @@ func (r *Route) copyWithParams(ps Params) *Route {
 	var nr = *r
 	nr.regex = nil
 	nr.matches = nil
-	nr.params = ps
+	nr.params = ps.clone()
 
 	return &nr
 }
